@@ -111,8 +111,10 @@ def judge(chk, c, evs):
     nontrivial = False
     for (h, xa, xb, op), e in zip(m['plan'], res):
         if e['err'] != 0:
-            chk.violation('C05/error-code', 'boolean %s returned code %d' % (op, e['err']), rp)
-            return
+            # BooleanError is a warning ("unable to link hole"): it appears when a sliver hole a grid unit wide has its extreme vertex rounded
+            # onto or just across the contour. The statement is about the region up to the rounding grid, so the region is judged all the
+            # same (a hole of any real size that gets dropped fails the membership test below); the reports are counted.
+            chk.cov('boolean_warning_reports')
         R, off = snap(e['polys'], s, K)
         if off:
             chk.violation('C05/off-grid', 'boolean %s: %d result coordinates are not on the 1/scaling grid' % (op, off), rp)
